@@ -73,6 +73,7 @@ type Replica struct {
 	home  string
 	Dirty map[string]bool
 	lastHash map[string]uint64
+	genesis  []byte
 	// process-lifetime bookkeeping
 	Restarts int
 	// fuel per ABCI call (0 = off)
@@ -121,6 +122,10 @@ func (r *Replica) Restart() {
 	verifrt.ResetGlobals()
 	r.Restarts++
 	r.boot()
+	if r.App.LastBlockHeight() == 0 && r.genesis != nil {
+		// crashed before the first commit: Tendermint's handshake replays InitChain
+		r.InitChain(r.genesis, 1, genesisTime)
+	}
 }
 
 func (r *Replica) ClearDirty() {
@@ -131,6 +136,7 @@ func (r *Replica) ClearDirty() {
 
 // guarded runs one ABCI call, converting an escaping panic into PanicInfo.
 func (r *Replica) guarded(call string, f func()) (pi *PanicInfo) {
+	verifrt.FuelSite = ""
 	if r.FuelBudget > 0 {
 		verifrt.SetFuel(r.FuelBudget)
 	}
@@ -146,7 +152,12 @@ func (r *Replica) guarded(call string, f func()) (pi *PanicInfo) {
 				pi.Fuel = true
 				pi.Site = fe.Site
 			}
+		} else if verifrt.FuelSite != "" {
+			// the budget ran out inside a transaction: baseapp recovered the sentinel panic and
+			// turned it into an error response, but the call did not terminate on its own
+			pi = &PanicInfo{Call: call, Value: "loop budget exhausted", Stack: verifrt.FuelStack, Fuel: true, Site: verifrt.FuelSite}
 		}
+		verifrt.FuelSite = ""
 	}()
 	f()
 	return nil
@@ -225,6 +236,7 @@ var genesisTime = time.Date(2026, 1, 1, 0, 0, 0, 0, time.UTC)
 // the first block.
 func (r *Replica) InitChain(genesis []byte, initialHeight int64, t time.Time) (*Sequencer, *PanicInfo) {
 	var res abci.ResponseInitChain
+	r.genesis = genesis
 	pi := r.guarded("InitChain", func() {
 		res = r.App.InitChain(abci.RequestInitChain{
 			Time:            t,
